@@ -500,6 +500,7 @@ def main():
                             "every return value compared; protocol model evaluated in Coq under a random schedule on the same calls; non-trivial = n_envs >= 2 AND delays injected AND an "
                             "attribute/method call with indices; distinct = distinct (kind, scripts, calls, delays)")
     chk.notes["input_distribution"] = hist
+    chk.notes["start_methods_run"] = dict(hist["start_method"])   # which multiprocessing start methods were actually exercised in this run
     chk.notes["corpus_cases"] = n_corpus
     chk.add_samples([{k: cases[i][k] for k in ("obs_kind", "n", "delay_pattern", "start_method", "calls")} for i in (n_corpus, len(cases) - 1) if i < len(cases)])
     chk.assumptions += [
